@@ -70,7 +70,24 @@ def random_unit(rng, descs, all_atom):
         for dsc in descs:
             desc.setdefault(rng.randrange(n), []).append(dsc)
         text, pre = M.render_coarse_fragment(rng, g, list(g.nodes), desc)
-        return text, n
+        return text, n, None
+    if rng.random() < 0.15:
+        # hand-written units with a lower-case aromatic ring (benzene, pyrrole-type [nH], imidazole); descriptors sit on the
+        # aliphatic carbons; the stand-alone mass is known from the formula
+        tmpl, slots, mass = rng.choice(FIXED_UNITS)
+        room = list(slots)
+        put = [[] for _ in slots]
+        ok = True
+        for dsc in descs:
+            cands = [k for k in range(len(slots)) if room[k] >= dsc[2]]
+            if not cands:
+                ok = False
+                break
+            k = rng.choice(cands)
+            room[k] -= dsc[2]
+            put[k].append(M.fmt_desc(*dsc))
+        if ok:
+            return tmpl.format(*[''.join(x) for x in put]), tmpl.count('c') + tmpl.count('C') + tmpl.count('n'), mass
     for _ in range(100):
         g = M.gen_molecule(rng, max_heavy=rng.randint(1, 5), p_arom=0.0, p_ring=0.15, charged=False, triple=False)
         budget = {n: g.nodes[n]['hcount'] for n in g}
@@ -86,8 +103,17 @@ def random_unit(rng, descs, all_atom):
             desc.setdefault(a, []).append(dsc)
         if ok:
             r = M.render_fragment(rng, g, list(g.nodes), desc, opts={'explicit_single': 0.0})
-            return r['text'], len(g)
-    return None, 0
+            # stand-alone mass from the generator's own atoms and hydrogen counts (unused descriptors become H)
+            mass = sum(M.MASS[g.nodes[n]['element']] + g.nodes[n]['hcount'] * M.MASS['H'] for n in g)
+            return r['text'], len(g), mass
+    return None, 0, None
+
+
+# (template, hydrogens available on each descriptor slot, mass of the unit as a stand-alone molecule)
+FIXED_UNITS = [('C{0}c1ccccc1', (3,), 7 * 12.011 + 8 * 1.008),                         # toluene
+               ('C{0}c1cc[nH]c1C{1}', (3, 3), 6 * 12.011 + 9 * 1.008 + 14.007),        # 3,4-dimethylpyrrole
+               ('C{0}C{1}c1c[nH]cn1', (3, 2), 5 * 12.011 + 8 * 1.008 + 2 * 14.007),    # 4-ethylimidazole
+               ('C{0}C{1}c1ccncc1', (3, 2), 7 * 12.011 + 9 * 1.008 + 14.007)]           # 4-ethylpyridine
 
 
 def random_config(rng, closed=True):
@@ -125,11 +151,13 @@ def random_config(rng, closed=True):
             return None
         if d[0] == '$' and sum(1 for ds in frag_descs for (k, l, o) in ds if k == '$' and str(o) == d[-1]) < 2:
             return None
+    unit_masses = {}
     for i, ds in enumerate(frag_descs):
-        text, n = random_unit(rng, ds, all_atom)
+        text, n, mass_ = random_unit(rng, ds, all_atom)
         if text is None:
             return None
         frags['U%d' % i] = text
+        unit_masses['U%d' % i] = mass_
     all_d = sorted({norm(k + l + str(o)) for ds in frag_descs for (k, l, o) in ds})
     # terminal descriptors: a dedicated terminal fragment
     terminal = []
@@ -139,10 +167,11 @@ def random_config(rng, closed=True):
         tkind = '$' if fam[0][0] == '$' else ('<' if rng.random() < 0.5 else '>')
         tlab = 'T' if tkind == '$' else fam[0][1]
         tdesc = (tkind, tlab, o)
-        text, n = random_unit(rng, [tdesc], all_atom)
+        text, n, mass_ = random_unit(rng, [tdesc], all_atom)
         if text is None:
             return None
         frags['TER'] = text
+        unit_masses['TER'] = mass_
         terminal = [tkind + tlab + (str(o) if (o != 1 or tlab[-1:].isdigit()) else '')]
         all_d = sorted(set(all_d) | {norm(tkind + tlab + str(o))})
     # reactivities
@@ -202,6 +231,11 @@ def random_config(rng, closed=True):
                seed=rng.choice([0, 1, 2 ** 40 + 7]) if rng.random() < 0.08 else rng.randrange(10 ** 6), start_fragment=rng.choice([None, None, 'U0']),
                target_units=rng.choice([1, 2, 5, 12, 40]))
     feats = {'all_atom' if all_atom else 'coarse', 'poly_' + mode, 'nfrag_%d' % len(frags)}
+    cfg['unit_masses'] = unit_masses
+    if any('[nH]' in t for t in frags.values()):
+        feats.add('unit_with_aromatic_nH')
+    if any('c1' in t for t in frags.values()):
+        feats.add('unit_with_aromatic_ring')
     if rng.random() < 0.3:
         cfg['via'] = 'dict'
         feats.add('constructor_with_shared_fragment_dict')
